@@ -2779,6 +2779,13 @@ where
 
             inp.errors.alt = old_alt;
             inp.add_alt_err(&new_alt.pos, new_alt.err);
+        } else {
+            // Reinsert the original alt and apply the (unmapped) inner alt on top of it, since both are valid
+            let new_alt = inp.take_alt();
+            inp.errors.alt = old_alt;
+            if let Some(new_alt) = new_alt {
+                inp.add_alt_err(&new_alt.pos, new_alt.err);
+            }
         }
 
         res
